@@ -106,6 +106,9 @@ def gen_docs(rng, space, n):
             docs.append(t)
         while len(docs) < n:
             docs.append(G.adversarial(rng))
+    elif space == 3:
+        while len(docs) < n:
+            docs.append(G.deep(rng))
     else:
         while len(docs) < n:
             docs.append(G.wellformed(rng, named_refs=(rng.random() < 0.25)))
@@ -141,6 +144,8 @@ def evaluate(exe, results, space):
         if r.get("status") != "ok":
             continue
         ls = [(ln, pv) for _lab, ln, pv in r["snaps"]]
+        if not r.get("cycle_ca"):
+            ls += [(ln, pv) for _lab, ln, pv in r.get("snaps_ca", [])]
         ca = r.get("clean_all") or {}
         for k in ("before", "after"):
             if ca.get(k):
@@ -195,6 +200,20 @@ def evaluate(exe, results, space):
                     loss_pass = lab.split(":")[-1]
                     f["first_word_change"] = loss_pass
                 prev_cw = lw
+        # the same passes through TreeCleaner.clean([name]) (only run when a directly called pass raised)
+        if broken_at is None:
+            if r.get("cycle_ca"):
+                lab = r["cycle_ca"][0]
+                broken_at = lab
+                f["c05"].append(("wf-broken after %s (catch-all path)" % lab.split(":")[-1], ["wf", lab], "the tree contains a cycle after %s" % lab))
+            for lab, ln, _pv in r.get("snaps_ca", []):
+                v = verdict.get(ln)
+                if v is not None and not v[0] and broken_at is None:
+                    broken_at = lab
+                    f["c05"].append(("wf-broken after %s (catch-all path)" % lab.split(":")[-1], ["wf", lab],
+                                     "after clean([%s]) swallowed an exception the document is not a proper tree (%s)" % (lab.split(":")[-1], wf_reason(ln))))
+            if broken_at is not None and broken_at.startswith("catchall"):
+                broken_at = None          # the direct run below was on a proper tree
         for k, name, ek, dt in r.get("passes", []):
             if ek is None:
                 continue
@@ -381,7 +400,7 @@ def monitor(run, prop, spaces, src, exe):
         all_dis += dis
         seen_fp.update(report_hits(run, src, exe, sp, [c["text"]], findings, prop, limit, max_shrink=0))
     for space in spaces:
-        left = ndocs
+        left = ndocs if space != 3 else ndocs * 3 // 20
         first = True
         while left > 0:
             nb = min(left, 2000)
@@ -541,7 +560,11 @@ def check(run):
     run.rule = ("space 1: %d hand-written seeds + grammar-based adversarial wikitext (headings, lists, tables incl. nested/wide/"
                 "single-column, 55 html tags with style/class/id values that switch passes on, refs incl. named, galleries, math, "
                 "links, templates) followed by 0-4 random mutations; space 2: documents of a recursive grammar of ordinary content "
-                "with unique words. distinct = distinct wikitext; non-trivial = at least one cleaner pass changed the tree" % len(G.SEEDS))
+                "(unique words, or one repeated fragment) incl. link-only section bodies, multi-block table cells, preformatted blocks; "
+                "space 3: forbidden-nesting pairs / row-copying tables / adversarial documents with one fragment wrapped into 41..%d "
+                "nested tags (passes fail half-way with RecursionError; the tree is checked after the failed pass on the direct and on "
+                "the catch-all path). distinct = distinct wikitext; non-trivial = at least one cleaner pass changed the tree"
+                % (len(G.SEEDS), G.DEEP_MAX))
     run.trusted = TRUSTED
     run.assumptions = ["the property's universal statement about the cleaner passes themselves is decided by exploration (verified "
                        "monitor), not by proof; proved are the checker (wfb_spec, contract_spec) and the tree API the passes are built from",
@@ -550,7 +573,7 @@ def check(run):
     run.check_proofs("C05")
     exe = build()
     api_tie(run, src, exe)
-    monitor(run, "c05", [1, 2], src, exe)
+    monitor(run, "c05", [1, 2, 3], src, exe)
     run.coverage["exhaustive"] = False
 
 
